@@ -447,18 +447,35 @@ class Master(loader.Loader):
     def init_schedule(self):
         """Run scheduler first time and update scheduled data."""
         placement = self.cell.schedule()
+        servers = self.cell.members()
 
-        for servername, server in self.cell.members().items():
+        # We run two loops. First - remove all stale placement, before
+        # creating any new ones. This ensures that in the event of loop
+        # interruption for any reason there are no duplicate placements.
+        current = dict()
+        for servername, server in servers.items():
             placement_node = z.path.placement(servername)
             self.backend.ensure_exists(placement_node)
 
-            current = set(self.backend.list(placement_node))
+            current[servername] = set(self.backend.list(placement_node))
             correct = set(server.apps.keys())
 
-            for app in current - correct:
+            for app in current[servername] - correct:
                 _LOGGER.info('Unscheduling: %s - %s', servername, app)
                 self.backend.delete(os.path.join(placement_node, app))
-            for app in correct - current:
+
+        # Remove placement records of servers that are not in the model.
+        for servername in set(self.backend.list(z.PLACEMENT)) - set(servers):
+            placement_node = z.path.placement(servername)
+            for app in self.backend.list(placement_node):
+                _LOGGER.info('Unscheduling: %s - %s', servername, app)
+                self.backend.delete(os.path.join(placement_node, app))
+
+        for servername, server in servers.items():
+            placement_node = z.path.placement(servername)
+            correct = set(server.apps.keys())
+
+            for app in correct - current[servername]:
                 _LOGGER.info('Scheduling: %s - %s,%s',
                              servername, app, self.cell.apps[app].identity)
 
@@ -469,7 +486,7 @@ class Master(loader.Loader):
                 )
 
                 self._update_task(app, servername, why=None)
-            for app in correct & current:
+            for app in correct & current[servername]:
                 # Placement was kept, but identity or expiration may have
                 # changed when the placement was restored.
                 placement_data = self._placement_data(app)
@@ -478,14 +495,6 @@ class Master(loader.Loader):
                     _LOGGER.info('Updating: %s - %s,%s',
                                  servername, app, placement_data)
                     self.backend.put(app_node, placement_data)
-
-        # Remove placement records of servers that are not in the model.
-        for servername in (set(self.backend.list(z.PLACEMENT)) -
-                           set(self.cell.members())):
-            placement_node = z.path.placement(servername)
-            for app in self.backend.list(placement_node):
-                _LOGGER.info('Unscheduling: %s - %s', servername, app)
-                self.backend.delete(os.path.join(placement_node, app))
 
         self._save_placement(placement)
         self.up_to_date = True
